@@ -553,6 +553,12 @@ int main(int argc, char** argv)
                 std::cerr << "Error reading " << startdistfile << std::endl;
                 return EXIT_SUCCESS;
             }
+            if (PhaseSpace::nx != ps_bins) {
+                std::cerr << "Error: " << startdistfile << " holds a grid of "
+                          << PhaseSpace::nx << " cells, GridSize is "
+                          << ps_bins << "." << std::endl;
+                return EXIT_SUCCESS;
+            }
         } else
         #endif
         if (isOfFileType(".txt",startdistfile)) {
